@@ -48,3 +48,153 @@ def register(reg):
         ],
         raises={"SecurityError": "trusted_hosts is not None"},
     )
+
+    # ---------------------------------------------------------------- debugger gates
+    import z3
+    from pyvc.values import VInt, VObj, VStr, VOpt, VBool, NONE
+    from pyvc.ops import as_int
+
+    # multiprocessing.Value("B"): an unsigned byte -- machine arithmetic is NOT treated as mathematical
+    def _store_ubyte(interp, obj, v):
+        return VInt(as_int(interp.need(v)) % 256)
+
+    Counter = reg.model("UByteValue", fields={"value": "int"}, setters={"value": _store_ubyte})
+    reg.contract("model:UByteValue.get_lock", prop=P, trusted=True, param_names=["self"], returns="opaque:lock")
+    Req = reg.model("DbgRequest", fields={"environ": "opaque:environ", "args": "Dict[str, str]", "is_secure": "bool",
+                                          "path": "str"})
+    App = reg.model("DebuggedApplication", cls="werkzeug/debug/__init__.py:DebuggedApplication",
+                    fields={"pin": "Optional[str]", "pin_cookie_name": "str", "trusted_hosts": "List[str]",
+                            "_failed_pin_auth": Counter, "secret": "str", "evalex": "bool",
+                            "console_path": "Optional[str]", "frames": "Dict[int, opaque:frame]",
+                            "debug_application": "opaque:wsgiapp", "pin_logging": "bool"})
+    reg.ufunc("uf_trust", ["opaque:environ"], "Optional[bool]")
+    reg.ufunc("uf_host_ok", ["opaque:environ"], "bool")
+    reg.ufunc("uf_hash_pin", ["str"], "str")
+    reg.contract("werkzeug/debug/__init__.py:DebuggedApplication.check_pin_trust", prop=P, trusted=True,
+                 params={"environ": "opaque:environ"}, returns="Optional[bool]",
+                 ensures=["result == uf_trust(environ)", "implies(self.pin is None, result is True)"],
+                 note="abstracted here; its own contract is below (check_pin_trust#body)")
+    reg.contract("werkzeug/debug/__init__.py:DebuggedApplication.check_host_trust", prop=P, trusted=True,
+                 params={"environ": "opaque:environ"}, returns="bool", ensures=["result == uf_host_ok(environ)"],
+                 note="environ.get('HTTP_HOST') through host_is_trusted (contract above)")
+    reg.contract("werkzeug/debug/__init__.py:hash_pin", prop=P, trusted=True, params={"pin": "str"}, returns="str",
+                 ensures=["result == uf_hash_pin(pin)"])
+    # the JSON body and the Response are recorded structurally (trusted constructors)
+    Resp = reg.model("RespRec", fields={"body_auth": "Optional[bool]", "body_exhausted": "Optional[bool]",
+                                        "n_set_cookie": "int", "n_delete_cookie": "int"})
+
+    def _json_dumps(interp):
+        from pyvc.values import VBuiltin
+        def impl(it, a, k, n):
+            return VObj("JsonText", {"value": a[0]})
+        return VBuiltin("json.dumps", impl)
+    reg.overrides["std:json.dumps"] = _json_dumps
+
+    def _mk_response(interp, cv, args, kwargs, node):
+        r = interp.fresh(("obj", Resp), "resp")
+        body = args[0] if args else NONE
+        auth = exhausted = NONE
+        if isinstance(body, VObj) and body.cls == "JsonText":
+            d = body.fields["value"]
+            auth = d.items.get(("str", "auth"), NONE)
+            exhausted = d.items.get(("str", "exhausted"), NONE)
+        r.fields["body_auth"] = auth
+        r.fields["body_exhausted"] = exhausted
+        r.fields["n_set_cookie"] = VInt(0)
+        r.fields["n_delete_cookie"] = VInt(0)
+        return r
+    reg.constructors["werkzeug/wrappers/response.py:Response"] = _mk_response
+    reg.contract("model:RespRec.set_cookie", prop=P, trusted=True, param_names=["self", "key", "value"],
+                 modifies=["self.n_set_cookie"], ensures=["self.n_set_cookie == old(self.n_set_cookie) + 1"])
+    reg.contract("model:RespRec.__call__", prop=P, trusted=True, param_names=["self", "environ", "start_response"],
+                 returns="opaque:body")
+    reg.contract("model:RespRec.delete_cookie", prop=P, trusted=True, param_names=["self", "key"],
+                 modifies=["self.n_delete_cookie"], ensures=["self.n_delete_cookie == old(self.n_delete_cookie) + 1"])
+
+    reg.contract(
+        "werkzeug/debug/__init__.py:DebuggedApplication._fail_pin_auth", prop=P, self_model=App,
+        ensures=["self._failed_pin_auth.value == (old(self._failed_pin_auth.value) + 1 if old(self._failed_pin_auth.value) < 255 else 255)"],
+        assumes=["0 <= self._failed_pin_auth.value and self._failed_pin_auth.value <= 255"],
+    )
+    reg.spec("pin_ok(entered, pin)", "entered.strip().replace('-', '') == pin.replace('-', '')")
+    reg.spec("F(self)", "self._failed_pin_auth.value")
+    reg.contract(
+        "werkzeug/debug/__init__.py:DebuggedApplication.pin_auth", prop=P, self_model=App, params={"request": Req},
+        returns=Resp, modifies=["self._failed_pin_auth.value"],
+        assumes=["0 <= F(self) and F(self) <= 255", "'pin' in request.args", "self.pin is not None"],
+        # gate demanded of every caller: the per-process secret
+        requires=["'s' in request.args and request.args['s'] == self.secret"],
+        ensures=[
+            # the PIN endpoint answers only trusted Hosts
+            "implies(not uf_host_ok(request.environ), isinstance(result, SecurityError))",
+            "implies(uf_host_ok(request.environ), not isinstance(result, SecurityError))",
+            # authenticated exactly when already trusted, or not locked out and the PIN is right
+            "isinstance(result, SecurityError) or result.body_auth == "
+            "  (uf_trust(request.environ) is True or (uf_trust(request.environ) is False and old(F(self)) <= 10 "
+            "   and pin_ok(request.args['pin'], self.pin)))",
+            # more than ten failures: refused even with the right PIN
+            "isinstance(result, SecurityError) or implies(uf_trust(request.environ) is False and old(F(self)) > 10, "
+            "  result.body_exhausted is True and result.body_auth is False)",
+            # ... until the process restarts: the lock-out is never left
+            "implies(old(F(self)) > 10, F(self) > 10)",
+            # a wrong PIN or a stale (bad hash) cookie counts one failure
+            "implies(uf_host_ok(request.environ) and (uf_trust(request.environ) is None or "
+            "  (uf_trust(request.environ) is False and old(F(self)) <= 10 and not pin_ok(request.args['pin'], self.pin))), "
+            "  F(self) == (old(F(self)) + 1 if old(F(self)) < 255 else 255))",
+            # the trust cookie is set only when authenticated
+            "isinstance(result, SecurityError) or (result.n_set_cookie > 0) == (result.body_auth is True)",
+        ],
+    )
+
+    # ---- dispatch: which command is reachable under which conjunction (call-pre obligations)
+    def _mk_request(interp, cv, args, kwargs, node):
+        r = interp.fresh(("obj", Req), "request")
+        r.fields["environ"] = args[0]
+        return r
+    reg.constructors["werkzeug/wrappers/request.py:Request"] = _mk_request
+    secret_ok = "'s' in request.args and request.args['s'] == self.secret"
+    reg.contract("werkzeug/debug/__init__.py:DebuggedApplication.log_pin_request", prop=P, trusted=True,
+                 params={"request": Req}, returns="opaque:wsgiapp", requires=[secret_ok],
+                 note="gate only; body: host gate checked by the static obligation")
+    reg.contract("werkzeug/debug/__init__.py:DebuggedApplication.execute_command", prop=P, trusted=True,
+                 params={"request": Req, "command": "str", "frame": "opaque:frame"}, returns="opaque:wsgiapp",
+                 requires=["self.evalex", secret_ok, "uf_trust(request.environ) is True"],
+                 note="the only function that evaluates code (frame.eval): reachable only with evaluation enabled, "
+                      "the secret and a valid PIN cookie (or PIN off); host gate: static obligation")
+    reg.contract("werkzeug/debug/__init__.py:DebuggedApplication.display_console", prop=P, trusted=True,
+                 params={"request": Req}, returns="opaque:wsgiapp",
+                 requires=["self.evalex", "self.console_path is not None and request.path == self.console_path"])
+    reg.contract("werkzeug/debug/__init__.py:DebuggedApplication.get_resource", prop=P, trusted=True,
+                 params={"request": Req, "filename": "str"}, returns="opaque:wsgiapp")
+    reg.contract(
+        "werkzeug/debug/__init__.py:DebuggedApplication.__call__", prop=P, self_model=App,
+        params={"environ": "opaque:environ", "start_response": "opaque:start_response"},
+        ensures=["True"],
+    )
+
+    # ---- static (AST) obligations: host gate first, code evaluation in one place only
+    import ast as _ast
+    from pyvc.extract import ModuleInfo
+
+    @reg.static(P, "debugger-host-gates")
+    def _gates():
+        mod = ModuleInfo.get("werkzeug/debug/__init__.py")
+        cls = mod.classes["DebuggedApplication"]
+        out = []
+        want = "if not self.check_host_trust(request.environ):\n    return SecurityError()"
+        for name in ("execute_command", "display_console", "pin_auth", "log_pin_request"):
+            fn = cls.methods[name][-1]
+            body = [s for s in fn.body if not (isinstance(s, _ast.Expr) and isinstance(s.value, _ast.Constant))]
+            first = _ast.unparse(body[0]) if body else ""
+            out.append((f"{name}/first-statement-is-host-gate", first == want, f"first statement: {first!r}"))
+        # frame.eval / .eval( only inside execute_command
+        sites = []
+        for fname, fns in cls.methods.items():
+            for n in _ast.walk(fns[-1]):
+                if isinstance(n, _ast.Call) and isinstance(n.func, _ast.Attribute) and n.func.attr in ("eval", "runsource", "exec"):
+                    sites.append(fname)
+        out.append(("code-evaluation-only-in-execute_command", sites == ["execute_command"], f"eval call sites: {sites}"))
+        # check_host_trust really asks host_is_trusted about the Host header and the configured list
+        src = _ast.unparse(cls.methods["check_host_trust"][-1].body[-1])
+        out.append(("check_host_trust-body", src == "return host_is_trusted(environ.get('HTTP_HOST'), self.trusted_hosts)", src))
+        return out
